@@ -872,7 +872,12 @@ impl Xot {
                         }
                         for name in self.attributes(node).keys() {
                             let namespace_id = self.namespace_for_name(name);
-                            if !fullname_serializer.is_namespace_known(namespace_id) {
+                            // an attribute needs a non-empty prefix, so a
+                            // default namespace declaration does not resolve
+                            // its namespace
+                            if !fullname_serializer.is_namespace_known(namespace_id)
+                                || fullname_serializer.attribute_fullname(name).is_err()
+                            {
                                 namespaces.push(namespace_id);
                             }
                         }
